@@ -484,7 +484,7 @@ int cmd_pool(const Args& a)
     auto emit = [&](Position& p, const char* src) {
         MoveVec mv;
         mv.gen(p);
-        if (mv.n == 0 || p.is_draw()) return;
+        if (mv.n == 0) return;      // (not filtered by the engine's own draw test: a position it wrongly calls drawn must still be searched)
         std::string ms;
         for (int i = 0; i < mv.n; ++i) ms += (i ? " " : "") + p.uci(mv.list[i]);
         fprintf(o, "%s|%s|%d|%d|%d|%s\n", p.fen().c_str(), ms.c_str(), mv.n, (int)p.is_in_check(p.color()), (int)has_mate_in_one(p), src);
